@@ -1,6 +1,7 @@
 #!/usr/bin/env python3
 """translate_imp.py - fail-closed translator for the small IMPERATIVE methods that mutate the dictionaries of CFDivisor / CFGraph
-(lending_move, borrowing_move, chip_transfer, set_fire, is_effective, get_degree; add_edge, get_valence, is_loopless) to Gallina.
+(lending_move, borrowing_move, chip_transfer, set_fire, is_effective, get_degree; add_edge, get_valence, is_loopless;
+CFiringScript.get_firings / set_firings / update_firings; CFConfig.get_out_degree_S) to Gallina.
 Writes coq/theories/TranslatedImpCFDivisor.v and TranslatedImpCFGraph.v (one file per class, so that a method that leaves the subset only
 affects the property that speaks about its class) from /repo's CURRENT source on every run; Link/ImpLink.v proves that each translated method, run on a
 dictionary state that represents a model state, raises exactly when the model refuses and otherwise ends in a state representing the model's
@@ -24,12 +25,17 @@ OUT = os.path.join(os.path.dirname(os.path.abspath(__file__)), "..", "coq", "the
 FIELDS = {
     "CFDivisor": {"self.degrees": ("self_degrees", "dictZ"), "self.graph.graph": ("self_graph_graph", "dictD"), "self.total_degree": ("self_total_degree", "Z")},
     "CFGraph": {"self.graph": ("self_graph", "dictD"), "self.vertex_total_valence": ("self_vertex_total_valence", "dictZ"), "self.total_valence": ("self_total_valence", "Z")},
+    "CFiringScript": {"self._script": ("self_script", "dictZ"), "self.graph.vertices": ("self_graph_vertices", "set")},
+    "CFConfig": {"self.graph.graph": ("self_graph_graph", "dictD"), "self.graph.vertices": ("self_graph_vertices", "set"), "self.q_vertex": ("self_q_vertex", "key")},
 }
 TARGETS = [
     ("chipfiring/CFDivisor.py", "CFDivisor", "is_effective"), ("chipfiring/CFDivisor.py", "CFDivisor", "get_degree"),
     ("chipfiring/CFDivisor.py", "CFDivisor", "lending_move"), ("chipfiring/CFDivisor.py", "CFDivisor", "borrowing_move"),
     ("chipfiring/CFDivisor.py", "CFDivisor", "chip_transfer"), ("chipfiring/CFDivisor.py", "CFDivisor", "set_fire"),
     ("chipfiring/CFGraph.py", "CFGraph", "is_loopless"), ("chipfiring/CFGraph.py", "CFGraph", "get_valence"), ("chipfiring/CFGraph.py", "CFGraph", "add_edge"),
+    ("chipfiring/CFiringScript.py", "CFiringScript", "get_firings"), ("chipfiring/CFiringScript.py", "CFiringScript", "set_firings"),
+    ("chipfiring/CFiringScript.py", "CFiringScript", "update_firings"),
+    ("chipfiring/CFConfig.py", "CFConfig", "get_out_degree_S"),
 ]
 class Unsupported(Exception): pass
 def bad(node, why=""): raise Unsupported("%s at line %s: %s" % (type(node).__name__, getattr(node, "lineno", "?"), why))
@@ -39,7 +45,7 @@ def ann_type(a):
     if s == "int": return "Z"
     if s == "str": return "key"
     if s == "bool": return "bool"
-    if s in ("Set[str]", "typing.Set[str]"): return "set"
+    if s in ("Set[str]", "typing.Set[str]", "typing.Set[typing.str]"): return "set"
     raise Unsupported("annotation " + s)
 DONE = {}      # (cls, name) -> Fn, in translation order
 
@@ -77,6 +83,15 @@ class Fn:
             if ta != "key": bad(e, "Vertex of " + ta)
             return a, "key"
         if isinstance(e, ast.Call) and isinstance(e.func, ast.Name) and e.func.id == "set" and not e.args and not e.keywords: return "(@nil nat)", "set"
+        if isinstance(e, ast.Call) and isinstance(e.func, ast.Attribute) and e.func.attr == "get" and len(e.args) == 2 and not e.keywords and ast.unparse(e.func.value) != "self":
+            d, td = self.expr(e.func.value); k, tk = self.expr(e.args[0]); dflt, tdf = self.expr(e.args[1])
+            if td != "dictZ" or tk != "key" or tdf != "Z": bad(e, "get on %s" % td)
+            return "(d_get %s %s %s)" % (k, dflt, d), "Z"
+        if isinstance(e, ast.SetComp) and len(e.generators) == 1 and not e.generators[0].ifs and isinstance(e.generators[0].target, ast.Name):
+            # {Vertex(name) for name in S}: the same set of keys
+            src, ts = self.expr(e.generators[0].iter); v = e.generators[0].target.id
+            if ts != "set" or ast.unparse(e.elt) not in ("Vertex(%s)" % v, v): bad(e, "set comprehension")
+            return src, "set"
         if isinstance(e, ast.Call) and isinstance(e.func, ast.Attribute) and ast.unparse(e.func.value) == "self":
             callee = DONE.get((self.cls, e.func.attr))
             if not callee or callee.writes or callee.can_raise: bad(e, "call of an untranslated / impure method in an expression")
@@ -154,6 +169,7 @@ class Fn:
                 t = n.targets[0] if isinstance(n, ast.Assign) else n.target
                 while isinstance(t, ast.Subscript): t = t.value
                 if isinstance(t, ast.Attribute): tgt = FIELDS[self.cls].get(ast.unparse(t), (None,))[0]
+            if isinstance(n, ast.AugAssign) and isinstance(n.target, ast.Name): tgt = n.target.id
             if isinstance(n, ast.Call) and isinstance(n.func, ast.Attribute) and n.func.attr == "add" and isinstance(n.func.value, ast.Name): tgt = n.func.value.id
             if isinstance(n, ast.Call) and isinstance(n.func, ast.Attribute) and ast.unparse(n.func.value) == "self":
                 c = DONE.get((self.cls, n.func.attr))
@@ -193,6 +209,14 @@ class Fn:
                 body = K(); self.pending = pre
                 for x, (t, _) in reversed(list(zip(tg.elts, vals))): body = "let %s := %s in\n  %s" % (x.id, t, body)
                 return self.wrap(body)
+            if isinstance(tg, ast.Name) and isinstance(s.value, ast.Call) and isinstance(s.value.func, ast.Attribute) and ast.unparse(s.value.func.value) == "self" \
+                    and DONE.get((self.cls, s.value.func.attr)) is not None and DONE[(self.cls, s.value.func.attr)].can_raise:
+                callee = DONE[(self.cls, s.value.func.attr)]
+                if callee.writes or callee.rty is None: bad(s, "result of a method with effects")
+                args = self.call_args(callee, s.value); pre = self.pending; self.pending = []; self.can_raise = True
+                if tg.id in self.env: bad(s, "re-binding " + tg.id)
+                self.env[tg.id] = callee.rty; body = K(); self.pending = pre
+                return self.wrap("match %s_%s %s with None => None | Some %s =>\n  %s end" % (self.cls, s.value.func.attr, " ".join(args), tg.id, body))
             if isinstance(tg, ast.Name):
                 t, ty = self.expr(s.value); pre = self.pending; self.pending = []
                 if tg.id in self.env: bad(s, "re-binding " + tg.id)
@@ -202,6 +226,11 @@ class Fn:
         if isinstance(s, ast.AugAssign) and isinstance(s.op, (ast.Add, ast.Sub)):
             op = "+" if isinstance(s.op, ast.Add) else "-"
             if isinstance(s.target, ast.Subscript): return self.store(s, s.target, op, s.value, K)
+            if isinstance(s.target, ast.Name) and self.env.get(s.target.id) == "Z":
+                t, ty = self.expr(s.value)
+                if ty != "Z": bad(s)
+                pre = self.pending; self.pending = []; body = K(); self.pending = pre
+                return self.wrap("let %s := (%s %s %s) in\n  %s" % (s.target.id, s.target.id, op, t, body))
             f = self.field(s.target, write=True) if isinstance(s.target, ast.Attribute) else None
             if f and f[1] == "Z":
                 t, ty = self.expr(s.value)
@@ -250,7 +279,7 @@ class Fn:
                 if v in [f[0] for f in FIELDS[self.cls].values()]:
                     if v not in self.writes: self.writes.append(v)
                     if v not in self.reads: self.reads.append(v)
-                elif self.env.get(v) != "set": bad(s, "loop-carried local " + v)
+                elif self.env.get(v) not in ("set", "Z"): bad(s, "loop-carried local " + v)
             lst, bind, vs, binder = self.iter_of(s.iter, s.target)
             pre = self.pending; self.pending = []
             env0 = dict(self.env)
@@ -318,7 +347,7 @@ def check_alias(tree, cls, alias, name):
 
 def main():
     failed = []
-    for cls in ("CFDivisor", "CFGraph"):
+    for cls in ("CFDivisor", "CFGraph", "CFiringScript", "CFConfig"):
         out_path = os.path.join(os.path.dirname(OUT), "TranslatedImp%s.v" % cls)
         try:
             out = ["(* GENERATED on every run by tools/translate_imp.py from the current source in %s. Do not edit. *)" % REPO,
